@@ -332,6 +332,36 @@ theorem reaches_full_threshold_refuted : ¬ reaches_full_threshold_after_period_
 
 /-! ## positive partials (outside the classified regions) -/
 
+/-- every request keeps the rule and the token bounds: `0 ≤ storedTokens ≤ maxToken` holds in every state reachable
+    from `loadWarmUp` (so the hypotheses of `allowed_ge_T_div_cf` / `not_starved_partial` are invariants) -/
+theorem req_tok_bounds {c : Cfg ℚ} {sc Iv : ℕ} {s : Sys ℚ} (hr : s.rule = some (.warmup c, sc, Iv))
+    (h0 : 0 ≤ s.tok.tokens) (h1 : s.tok.tokens ≤ c.max) (t b : ℕ) :
+    (req s t b).1.rule = some (.warmup c, sc, Iv) ∧ 0 ≤ (req s t b).1.tok.tokens ∧ (req s t b).1.tok.tokens ≤ c.max := by
+  obtain ⟨a, ha, hr', htk, _⟩ := touch_arr s t
+  have hb := sync_bounds c s.tok t (prevQps a sc Iv t) (prevQps_nonneg a sc Iv t) h0 h1
+  have hthr : threshold (s.touch t) a t =
+      (sync c s.tok t (prevQps a sc Iv t), some (allowed c (sync c s.tok t (prevQps a sc Iv t)).tokens)) := by
+    unfold threshold
+    rw [hr', hr]
+    dsimp only
+    rw [htk]
+  unfold req
+  simp only [ha, hthr, hr', hr]
+  exact ⟨trivial, hb⟩
+
+theorem run_tok_bounds (T : ℚ) (p cf0 sc Iv : ℕ) (h : List (ℕ × ℕ)) :
+    ∀ (s : Sys ℚ), s.rule = some (.warmup (mkCfg T p cf0), sc, Iv) → 0 ≤ s.tok.tokens → s.tok.tokens ≤ (mkCfg T p cf0).max →
+    let s' := h.foldl (fun s e => (req s e.1 e.2).1) s
+    0 ≤ s'.tok.tokens ∧ s'.tok.tokens ≤ (mkCfg T p cf0).max := by
+  induction h with
+  | nil => intro s _ h0 h1; exact ⟨h0, h1⟩
+  | cons e r ih =>
+    intro s hr h0 h1
+    obtain ⟨k1, k2, k3⟩ := req_tok_bounds hr h0 h1 e.1 e.2
+    exact ih _ k1 k2 k3
+
+
+
 /-- `not_starved_forever`, partial: outside the `warmup-nan` region and with `T ≥ coldFactor` (the complement
     of `warmup-starvation` among thresholds ≥ 1 is `T ≥ coldFactor`, or `warningToken = 0`), a single-token request
     that finds the statistic window empty is admitted — at every instant of every history (so a steady
